@@ -16,15 +16,6 @@ impl NativeRef {
 impl FunRef { #[verifier::external_body] pub fn set_name(&mut self, name: LyStr) ensures *final(self) == *old(self) { } }
 impl ClassRef { #[verifier::external_body] pub fn init(&self) -> (r: Option<Value>) ensures r == class_init(*self) { None } }
 
-impl Fiber {
-  /// real: `stack_slice(n)` = the top n slots as a slice through the raw stack pointer
-  #[verifier::external_body]
-  pub fn stack_copy(&self, count: usize) -> (r: Vec<Value>)
-    requires count <= self.stack@.len()
-    ensures r@ == self.stack@.subrange(self.stack@.len() - count, self.stack@.len() as int)
-  { Vec::new() }
-}
-
 pub open spec fn vm_frame(o: &Vm, n: &Vm) -> bool {
   n.raised == o.raised && n.ip == o.ip && n.builtin == o.builtin && n.call_log == o.call_log && n.capture_stub == o.capture_stub && n.called == o.called
 }
